@@ -87,7 +87,9 @@ def _run_canary(item: Tuple[str, str]) -> Dict[str, Any]:
         failed = failed + failed2
     return {
         "canary": cid,
-        "status": "caught" if hit else ("error" if d.get("error") else "MISSED"),
+        # a canary is a mutant that must be DETECTED; which obligation detects it is informative only
+        # (mutants written against local names must not turn a harmless renaming into an alarm)
+        "status": "caught" if hit else ("caught-by-another-obligation" if failed else ("error" if d.get("error") else "MISSED")),
         "failed_obligations": failed[:8],
         "expected": expected,
         "error": (d.get("error") or "")[:300],
